@@ -1,5 +1,6 @@
 import PGA.Drv.Util
 import PGA.Model.RingParse
+import PGA.Model.RingRead
 import PGA.Gen.RingGrammar
 /-! Driver ops of C09: `c09.parse` (the engine on the generated grammar). The text travels as a list
 of code points (`"t": [102, 114, …]`) so that no JSON string escaping is involved. -/
@@ -58,6 +59,29 @@ def handle (op : String) (j : Json) : Option (Except String Json) :=
                                                   ("line", Json.num fin.line), ("col", Json.num fin.col)]
       | .syntaxError e => pure (errJson e)
       | .abort a => pure (abortJson a)
+  | "c09.read" => some do
+      let t ← getText j
+      let pj := match parse (grammarOf j) t with
+        | .accepted ast fin => Json.mkObj [("cls", "ok"), ("ast", astJson ast), ("idx", Json.num fin.idx),
+                                            ("line", Json.num fin.line), ("col", Json.num fin.col)]
+        | .syntaxError e => errJson e
+        | .abort a => abortJson a
+      let rj := match read t with
+        | .query (.mol q) => Json.mkObj [("cls", "query"), ("kind", "MolQuery"), ("atoms", Json.num q.labels.length),
+            ("bonds", Json.num q.bonds.length), ("labels", Json.arr (q.labels.map fun l => Json.str (String.ofList l)).toArray)]
+        | .query (.rxn s) =>
+            let qs := s.rq.filterMap fun e => s.heap[e.2]?
+            let na : Nat := (qs.map fun q => q.labels.length).sum
+            let nb : Nat := (qs.map fun q => q.bonds.length).sum
+            Json.mkObj [("cls", "query"), ("kind", "ReactionQuery"), ("reactants", Json.num s.rq.length),
+              ("atoms", Json.num na), ("bonds", Json.num nb),
+              ("transformations", Json.num s.ntrans)]
+        | .syntaxError e => errJson e
+        | .readerError => Json.mkObj [("cls", "reader")]
+        | .notImplemented => Json.mkObj [("cls", "notimpl")]
+        | .internal => Json.mkObj [("cls", "internal")]
+        | .hang => Json.mkObj [("cls", "hang")]
+      pure <| Json.mkObj [("parse", pj), ("read", rj)]
   | _ => none
 
 end PGA.Drv.C09
